@@ -61,8 +61,11 @@ Definition closedb (ts : list (N * N * N)) : bool :=
 Definition closed_idxb (cls : N -> N) (idx : list N) : bool :=
   ((N.of_nat (length idx)) mod 3 =? 0) && closedb (tris_of (map cls idx)).
 
-(* 0, 1, …, n-1 *)
-Definition nseq (n : N) : list N := map N.of_nat (seq 0 (N.to_nat n)).
+(* 0, 1, …, n-1, generated in time linear in n (a counter in N; [map N.of_nat (seq 0 n)] would convert every
+   element from unary and be quadratic — the generators are also evaluated at 2^16 vertices) *)
+Fixpoint nseq_from (k : nat) (a : N) : list N :=
+  match k with O => [] | S k' => a :: nseq_from k' (a + 1) end.
+Definition nseq (n : N) : list N := nseq_from (N.to_nat n) 0.
 
 (* ---- exact signed volume (six times it) of an indexed triangle list over integer positions:
         the divergence-theorem sum  Σ det(a, b, c) ---- *)
